@@ -136,6 +136,7 @@ func TestC11(t *testing.T) {
 	run.Require("rejected_without_foreign_contact", 50)
 	run.Require("listings_judged", int64(len(deps)))
 	run.Require("dead_provider_cases", 100)
+	run.Require("listings_with_provider_unhealthy", 40)
 	run.Finish(t)
 }
 
@@ -306,6 +307,47 @@ func runDeployment(run *rep.Run, d deployment, provs []provider, oc map[string]b
 				names = append(names, b.Name)
 			}
 			w.CloseEngineBreakers(names...)
+		}
+		// the provider's endpoints are unhealthy, endpoints of other kinds are fine and list a
+		// model of the same name: nothing is available under this prefix, so its listing is empty
+		if anyAllowed && anyForeign && (id+pi)%2 == 0 {
+			for i, tp := range d.Types {
+				if allowed(p, tp, oc) {
+					backs[i].SetHealth(500, "")
+				}
+			}
+			w.ForceHealth()
+			if resp, err := hc.Get(w.Base + "/olla/" + p.Prefix + "/v1/models"); err == nil {
+				bts, _ := io.ReadAll(resp.Body)
+				resp.Body.Close()
+				var lst struct {
+					Data []struct {
+						ID string `json:"id"`
+					} `json:"data"`
+					Models []struct {
+						Name string `json:"name"`
+					} `json:"models"`
+				}
+				if resp.StatusCode == 200 && json.Unmarshal(bts, &lst) == nil {
+					var ids []string
+					for _, x := range lst.Data {
+						ids = append(ids, x.ID)
+					}
+					for _, x := range lst.Models {
+						ids = append(ids, x.Name)
+					}
+					run.Count("listings_with_provider_unhealthy", 1)
+					run.Eval(depKey + "/" + p.Prefix + "/listing-provider-unhealthy")
+					if len(ids) > 0 {
+						run.Violation("C11/listing-shows-model-of-unhealthy-provider-endpoint", fmt.Sprintf("every %s endpoint is unhealthy, yet GET /olla/%s/v1/models lists %v (a healthy endpoint of another kind lists the same name)", p.Owner, p.Prefix, ids), map[string]any{"deployment": d, "prefix": p.Prefix, "listing": ids})
+					}
+				}
+			}
+			for _, b := range backs {
+				b.SetHealth(200, "")
+			}
+			w.Health().VerifShift(40 * time.Second)
+			w.ForceHealth()
 		}
 		// model listing under the prefix (OpenAI format where registered)
 		resp, err := hc.Get(w.Base + "/olla/" + p.Prefix + "/v1/models")
